@@ -609,7 +609,11 @@ fn exec_op<'scope, 'env>(
             shuttle::current::reset_step_count();
             "ok".into()
         }
-        "panic" => panic!("vp-panic"),
+        "panic" => {
+            // announce first, so that a swallowed panic is visible in the log
+            log(format!("O {} {} panicking", me(), st.k));
+            panic!("vp-panic")
+        }
         "obs" => "ok".into(),
         // ---- atomics
         "aload" | "astore" | "aswap" | "aadd" | "asub" | "aand" | "aor" | "axor" | "anand" | "amax" | "amin"
